@@ -21,6 +21,10 @@ def _custom_asym(L):
     return refwin.asym_custom(L)
 
 
+def _custom_gap(L):
+    return refwin.gapneg(L)
+
+
 def win_spec(name):
     """Returns (analyzer kwargs, ref builder)."""
     from numpy import kaiser as np_kaiser
@@ -38,6 +42,8 @@ def win_spec(name):
         return {"win": "hann"}, lambda L: refwin.hann_sym(L)
     if name == "custom":
         return {"win": _custom_asym}, lambda L: refwin.asym_custom(L)
+    if name == "customgap":
+        return {"win": _custom_gap}, lambda L: refwin.gapneg(L)
     raise KeyError(name)
 
 
@@ -63,7 +69,7 @@ def ref_bin(x, y, fs, f, L, D, winvec, order):
     w = 2.0 * np.pi * float(f) / float(fs)
     D = np.asarray(D, dtype=np.int64)
     ref = est.ref_stats(x, y, D, int(L), winvec, w, int(order))
-    tol = est.tolerances(x, y, D, int(L), winvec)
+    tol = est.tolerances(x, y, D, int(L), winvec, m2ref=ref[4])
     return ref, tol
 
 
